@@ -672,6 +672,30 @@ func c20Candidates(c *Ctx, P, cl *ssa.Function) {
 	fi := w.Info(cl)
 	p := "param:" + cl.Params[0].Name()
 	d := "param:" + cl.Params[1].Name()
+	// helpers by role, never by name: the file-name parser (string -> (string, error), cuts the binary prefix),
+	// the executable test ((string) -> (bool, error), applied to the entry path), the chmod helper ((string) -> error)
+	PN, EXE, SETX := "call:?", "call:?", "call:?"
+	if f := c20NameParser(w); f != nil {
+		PN = "call:" + fnName(f)
+	}
+	for _, f := range []*ssa.Function{cl, P} {
+		for _, ci := range allCalls(f) {
+			g := staticCallee(ci)
+			if g == nil || !w.IsProductFn(g) || g.Signature.Params().Len() != 1 {
+				continue
+			}
+			if b, ok := g.Signature.Params().At(0).Type().Underlying().(*types.Basic); !ok || b.Kind() != types.String {
+				continue
+			}
+			res := g.Signature.Results()
+			switch {
+			case res.Len() == 2 && res.At(0).Type().String() == "bool" && isErrorType(res.At(1).Type()):
+				EXE = "call:" + fnName(g)
+			case res.Len() == 1 && isErrorType(res.At(0).Type()) && f == P:
+				SETX = "call:" + fnName(g)
+			}
+		}
+	}
 	// stores to captured variables
 	type cap struct {
 		st *ssa.Store
@@ -729,7 +753,7 @@ func c20Candidates(c *Ctx, P, cl *ssa.Function) {
 	} else {
 		g := fi.GuardsOf(stName)
 		okFile := desc(stFile.Val) == p && stFile.Block() == stName.Block()
-		parsed := "call:ngo/plugin.parsePluginName(call:invoke:io/fs.DirEntry.Name(" + d + "))"
+		parsed := PN + "(call:invoke:io/fs.DirEntry.Name(" + d + "))"
 		okName := desc(stName.Val) == parsed+"#0"
 		if !okName {
 			// through a captured variable assigned in this invocation on every path to the store
@@ -749,7 +773,7 @@ func c20Candidates(c *Ctx, P, cl *ssa.Function) {
 				}
 			}
 		}
-		gates := labelHas(g, "EQ("+parsed+"#err,nil)") && labelHas(g, "T(call:ngo/plugin.isExecutableFile("+p+")#0)") && labelHas(g, "EQ(call:ngo/plugin.isExecutableFile("+p+")#err,nil)")
+		gates := labelHas(g, "EQ("+parsed+"#err,nil)") && labelHas(g, "T("+EXE+"("+p+")#0)") && labelHas(g, "EQ("+EXE+"("+p+")#err,nil)")
 		_, second := hasLabel(g, "F(free:")
 		c.Check(okFile && okName && gates && second, "discovery/pair-from-same-entry", rule, w.InstrPos(stName), fmt.Sprintf("path is the entry=%v name parsed from the entry=%v gates(parse ok, executable)=%v second-executable refused=%v", okFile, okName, gates, second))
 	}
@@ -759,9 +783,9 @@ func c20Candidates(c *Ctx, P, cl *ssa.Function) {
 		c.OK("discovery/fallback-pair", rule+" (no fallback exit present)", w.FnPos(P))
 	} else {
 		f, n := desc(fallback.Ret.Results[0]), desc(fallback.Ret.Results[1])
-		okN := n == "call:ngo/plugin.parsePluginName(call:path/filepath.Base("+f+"))#0"
+		okN := n == PN+"(call:path/filepath.Base("+f+"))#0"
 		okL := strings.HasSuffix(f, "[const:0]") && labelHas(fallback.Checked, "EQ(len("+strings.TrimSuffix(f, "[const:0]")+"),const:1)")
-		okE := labelHas(fallback.Checked, "EQ(call:ngo/plugin.parsePluginName(call:path/filepath.Base("+f+"))#err,nil)") && labelHas(fallback.Checked, "EQ(call:ngo/plugin.setExecutable("+f+")#err,nil)")
+		okE := labelHas(fallback.Checked, "EQ("+PN+"(call:path/filepath.Base("+f+"))#err,nil)") && labelHas(fallback.Checked, "EQ("+SETX+"("+f+")#err,nil)")
 		_, okF := hasLabel(fallback.Checked, "F(alloc:bool<")
 		// the list holds the callback's well-named regular entries
 		okSrc := false
@@ -769,7 +793,7 @@ func c20Candidates(c *Ctx, P, cl *ssa.Function) {
 		for _, cp := range caps {
 			if cp.fv == lst && strings.HasPrefix(desc(cp.st.Val), "call:builtin:append(free:"+lst+",{"+p+"})") {
 				g := fi.GuardsOf(cp.st)
-				if labelHas(g, "EQ(call:ngo/plugin.parsePluginName(call:invoke:io/fs.DirEntry.Name("+d+"))#err,nil)") {
+				if labelHas(g, "EQ("+PN+"(call:invoke:io/fs.DirEntry.Name("+d+"))#err,nil)") {
 					okSrc = true
 				}
 			}
@@ -871,8 +895,16 @@ func c20DirCopy(c *Ctx, D, cl *ssa.Function) {
 // (g) binName / parsePluginName agreement
 func c20Names(c *Ctx) {
 	w := c.W
-	B := w.Func("plugin", "binName")
-	P := w.Func("plugin", "parsePluginName")
+	P := c20NameParser(w)
+	// binName by role: the string -> string function Get joins under the plugin name
+	var B *ssa.Function
+	if get := w.Method("plugin", "CLIManager", "Get"); get != nil {
+		for _, ci := range allCalls(get) {
+			if g := staticCallee(ci); g != nil && w.IsProductFn(g) && g.Signature.Params().Len() == 1 && g.Signature.Results().Len() == 1 && g.Signature.Results().At(0).Type().String() == "string" {
+				B = g
+			}
+		}
+	}
 	if B == nil || P == nil {
 		c.Unk("names/anchor", "anchor: binName and parsePluginName", "-", "not found")
 		return
@@ -927,4 +959,19 @@ func spilledRet(v ssa.Value) ssa.Value {
 		return last
 	}
 	return v
+}
+
+// c20NameParser: the function of the plugin package that turns an executable file name into a plugin name
+// (string -> (string, error), cutting the framework's binary prefix).
+func c20NameParser(w *World) *ssa.Function {
+	for _, fn := range w.FuncsOfPkg("plugin") {
+		sig := fn.Signature
+		if sig.Recv() != nil || sig.Params().Len() != 1 || sig.Results().Len() != 2 || sig.Results().At(0).Type().String() != "string" || !isErrorType(sig.Results().At(1).Type()) {
+			continue
+		}
+		if len(findCalls(fn, "strings.CutPrefix", "strings.TrimPrefix", "strings.HasPrefix")) > 0 {
+			return fn
+		}
+	}
+	return nil
 }
